@@ -56,6 +56,36 @@ fn add_case(sub: bool, d: i32) {
     vcover!(d == ZERO || r.lo != 0.0, "result (with non-zero low word unless an operand is zero) reachable");
 }
 
+/// 2Prod exactness with `z` trailing zero significand bits in both operands
+fn new_mul_exact_case(z: u32) {
+    let a = any_f64!(); let b = any_f64!();
+    let (ea, eb) = (eexp(a), eexp(b));
+    let full = z == 99;
+    let z = if full { 0 } else { z };
+    if full { vassume!(a.is_finite() && b.is_finite() && a != 0.0 && b != 0.0); }
+    else { vassume!(a.is_finite() && b.is_finite() && a != 0.0 && b != 0.0 && ea >= 923 && ea <= 1123 && eb >= 923 && eb <= 1123); }
+    vassume!(a.to_bits() & ((1u64 << z) - 1) == 0 && b.to_bits() & ((1u64 << z) - 1) == 0);
+    let r = TwoFloat::new_mul(a, b);
+    if full { vassume!(mul_dom(r.hi) && r.hi != 0.0); }
+    #[cfg(kani)]
+    {
+        let (na, ma, _) = fld(a); let (nb, mb, _) = fld(b);
+        let p = ((ma >> z) as i128) * ((mb >> z) as i128);
+        let p = if na != nb { -p } else { p };
+        let anchor = ea + eb - 1075 + 2 * z as i32;
+        match (at_anchor(r.hi, anchor, 70), at_anchor(r.lo, anchor, 70)) {
+            (Some(h), Some(l)) => { vassert!(h + l == p, "new_mul: hi + lo == a * b exactly"); }
+            _ => { vassert!(false, "new_mul: words representable at the product's unit"); }
+        }
+    }
+    #[cfg(not(kani))]
+    {
+        let one = TwoFloat { hi: a, lo: 0.0 };
+        vassert!(super::c04::mul_bound_ok(&r, &one, b, 0.0, 0), "new_mul: hi + lo == a * b exactly");
+    }
+    vcover!(r.lo != 0.0, "inexact product reachable");
+}
+
 harnesses! {
     /// the fast_two_sum cases exhaust its precondition
     #[kani::solver(kissat)]
@@ -130,33 +160,14 @@ harnesses! {
             vassert!(r.hi == p && super::c04::mul_bound_ok(&r, &one, b, 0.0, 0), "new_mul: hi == RN(ab) and hi + lo == ab exactly");
         }
     }
-    /// bounded stand-in for the 2Prod theorem: hi + lo == a * b exactly for operands with 31-bit significands and
-    /// exponents within 100 binades of 1 (the exact product is an integer product of the significands)
-    #[kani::solver(kissat)] #[kani::stub(crate::arithmetic::fma, fma_fixed)]
-    fn new_mul_exact_b31() {
-        let a = any_f64!(); let b = any_f64!();
-        let (ea, eb) = (eexp(a), eexp(b));
-        vassume!(a.is_finite() && b.is_finite() && a != 0.0 && b != 0.0 && ea >= 923 && ea <= 1123 && eb >= 923 && eb <= 1123);
-        vassume!(a.to_bits() & ((1u64 << 22) - 1) == 0 && b.to_bits() & ((1u64 << 22) - 1) == 0);
-        let r = TwoFloat::new_mul(a, b);
-        #[cfg(kani)]
-        {
-            let (na, ma, _) = fld(a); let (nb, mb, _) = fld(b);
-            let p = ((ma >> 22) as i128) * ((mb >> 22) as i128);
-            let p = if na != nb { -p } else { p };
-            let anchor = ea + eb - 1075 + 44;
-            match (at_anchor(r.hi, anchor, 70), at_anchor(r.lo, anchor, 70)) {
-                (Some(h), Some(l)) => { vassert!(h + l == p, "new_mul: hi + lo == a * b exactly (31-bit significands)"); }
-                _ => { vassert!(false, "new_mul: words representable at the product's unit"); }
-            }
-        }
-        #[cfg(not(kani))]
-        {
-            let one = TwoFloat { hi: a, lo: 0.0 };
-            vassert!(super::c04::mul_bound_ok(&r, &one, b, 0.0, 0), "new_mul: hi + lo == a * b exactly");
-        }
-        vcover!(r.lo != 0.0, "inexact product reachable");
-    }
+    // 2Prod: hi + lo == a * b exactly, operands within 100 binades of 1, significands of 53 - z bits
+    // (z = 0: full width).  The exact product is the integer product of the significands.
+    #[kani::solver(kissat)] #[kani::stub(crate::arithmetic::fma, fma_fixed)] fn new_mul_exact_b31() { new_mul_exact_case(22) }
+    #[kani::solver(kissat)] #[kani::stub(crate::arithmetic::fma, fma_fixed)] fn new_mul_exact_b42() { new_mul_exact_case(11) }
+    #[kani::solver(kissat)] #[kani::stub(crate::arithmetic::fma, fma_fixed)] fn new_mul_exact_b53() { new_mul_exact_case(0) }
+    /// 2Prod on the whole domain of C02: every finite pair (subnormal operands included) whose rounded product is
+    /// non-zero and in [2^-960, 2^1023)
+    #[kani::solver(kissat)] #[kani::stub(crate::arithmetic::fma, fma_fixed)] fn new_mul_exact_full() { new_mul_exact_case(99) }
     /// new_mul: result normalised when the product is 0 or in [2^-960, 2^1023)
     #[kani::solver(kissat)] #[kani::stub(crate::arithmetic::fma, fma_fixed)]
     fn new_mul_valid() {
